@@ -275,6 +275,12 @@ func (q *clntRq) reply(r *rng) clntReply {
 	return clntReply{L(I(0), pv), clntADU(q.fr, q.tid, q.unit, pdu)}
 }
 
+// replyData: a byte-counted reply (FC1-4, FC23) carrying the given payload
+func (q *clntRq) replyData(d []byte) clntReply {
+	pdu := append([]byte{byte(q.fc), byte(len(d))}, d...)
+	return clntReply{L(I(0), L(I(q.fc), I(int(q.unit)), I(len(d)), B(d))), clntADU(q.fr, q.tid, q.unit, pdu)}
+}
+
 func (q *clntRq) exception(code uint8) clntReply {
 	return clntReply{L(I(1), I(int(q.unit)), I(q.fc), I(int(code))),
 		clntADU(q.fr, q.tid, q.unit, []byte{byte(q.fc) | 0x80, code})}
@@ -292,6 +298,25 @@ func clntCut(b []byte, at ...int) []clntStep {
 	}
 	return append(s, clntData(b[prev:]))
 }
+
+// clntCutAs: like clntCut; chunk i is returned with a nil error (0) or together with the read
+// deadline error (1) as cls[i%len(cls)] says; 2 for the last chunk: together with io.EOF
+func clntCutAs(b []byte, cls []int, at ...int) []clntStep {
+	s := clntCut(b, at...)
+	for i := range s {
+		switch cls[i%len(cls)] {
+		case 1:
+			s[i].rd = clntRdTimeout
+		case 2:
+			if i == len(s)-1 {
+				s[i].rd = clntRdEOF
+			}
+		}
+	}
+	return s
+}
+
+var clntClassMixes = [][]int{{0, 0}, {1, 0}, {0, 1}, {1, 1}, {0, 2}, {1, 2}}
 
 func clntTail() []clntStep { return []clntStep{clntQuiet(), clntTimer()} }
 
@@ -330,7 +355,13 @@ func clntGenC07(r *rng, thorough bool, f func(c *clntCase)) {
 					n = len(b) - pos
 				}
 			}
-			steps = append(steps, clntData(b[pos:pos+n]))
+			st := clntData(b[pos : pos+n])
+			if r.intn(3) == 0 {
+				st = clntLate(b[pos : pos+n]) // the bytes arrive together with the deadline error
+			} else if pos+n == len(b) && r.intn(4) == 0 {
+				st = clntEOF(b[pos : pos+n]) // the stream ends with the reply
+			}
+			steps = append(steps, st)
 			pos += n
 			for r.intn(3) == 0 {
 				steps = append(steps, clntQuiet())
@@ -341,21 +372,38 @@ func clntGenC07(r *rng, thorough bool, f func(c *clntCase)) {
 		}
 		mk(kind, q, rep, steps)
 	}
-	shapes := func(kind int, q *clntRq, rep clntReply, small bool) {
+	shapes := func(kind int, q *clntRq, rep clntReply, small, isExc bool) {
 		b := rep.bytes
 		n := len(b)
 		mk(kind, q, rep, clntCut(b))
 		mk(kind, q, rep, append(clntCut(b), clntTail()...))
+		mk(kind, q, rep, clntCutAs(b, []int{1}))
+		mk(kind, q, rep, clntCutAs(b, []int{2}))
 		for c := 1; c < n; c++ {
-			mk(kind, q, rep, clntCut(b, c))
-			if c%5 == 0 {
-				mk(kind, q, rep, []clntStep{clntQuiet(), clntData(b[:c]), clntQuiet(), clntQuiet(), clntData(b[c:])})
+			mix := clntClassMixes[c%len(clntClassMixes)]
+			mk(kind, q, rep, clntCutAs(b, mix, c))
+			if c%5 == 0 || isExc {
+				// the same cut with empty timed-out reads in between
+				st := clntCutAs(b, mix, c)
+				mk(kind, q, rep, []clntStep{clntQuiet(), st[0], clntQuiet(), clntQuiet(), st[1]})
+				mk(kind, q, rep, []clntStep{st[0], clntQuiet(), st[1]})
+			}
+			if isExc {
+				for _, m := range clntClassMixes {
+					mk(kind, q, rep, clntCutAs(b, m, c))
+				}
 			}
 		}
 		if small || thorough && n <= 40 {
+			k := 0
 			for c1 := 1; c1 < n; c1++ {
 				for c2 := c1 + 1; c2 < n; c2++ {
-					mk(kind, q, rep, clntCut(b, c1, c2))
+					k++
+					mk(kind, q, rep, clntCutAs(b, [][]int{{0}, {0, 1}, {1, 0, 0}, {1}, {0, 0, 2}}[k%5], c1, c2))
+					if isExc {
+						st := clntCut(b, c1, c2)
+						mk(kind, q, rep, []clntStep{st[0], clntQuiet(), st[1], clntQuiet(), st[2]})
+					}
 				}
 			}
 		}
@@ -369,12 +417,57 @@ func clntGenC07(r *rng, thorough bool, f func(c *clntCase)) {
 			for variant := 0; variant < 4; variant++ {
 				q := clntMkRq(r, fc, fr, variant)
 				rep := q.reply(r)
-				shapes(kind, q, rep, len(rep.bytes) <= 14)
+				shapes(kind, q, rep, len(rep.bytes) <= 14, false)
 			}
 			// exception replies
 			for _, code := range []uint8{1, 2, 3, 4, 6, 11} {
 				q := clntMkRq(r, fc, fr, r.intn(4))
-				shapes(kind, q, q.exception(code), code <= 2)
+				shapes(kind, q, q.exception(code), true, true)
+			}
+		}
+	}
+	// normal replies whose payload holds what a recogniser looking at a single chunk (instead of
+	// at everything received so far) would take for an exception frame
+	for kind := 0; kind < 3; kind++ {
+		fr := clntFrOf(kind)
+		for _, fc := range []int{1, 2, 3, 4, 23} {
+			for _, variant := range []int{2, 2, 3} {
+				q := clntMkRq(r, fc, fr, variant)
+				nd := 2 * int(q.qty)
+				if fc <= 2 {
+					nd = (int(q.qty) + 7) / 8
+				}
+				e := q.exception(uint8(1 + r.intn(4))).bytes
+				if nd < len(e) {
+					continue
+				}
+				d := r.bytes(nd)
+				off := r.intn(nd - len(e) + 1)
+				if variant == 3 {
+					off = []int{0, nd - len(e)}[r.intn(2)]
+				}
+				copy(d[off:], e) // a complete, valid exception frame inside the data
+				rep := q.replyData(d)
+				b := rep.bytes
+				p := len(b) - 2*fr - nd + off // where it starts in the frame
+				for _, m := range clntClassMixes[:4] {
+					mk(kind, q, rep, clntCutAs(b, m, p, p+len(e)))
+					mk(kind, q, rep, clntCutAs(b, m, p))
+					mk(kind, q, rep, clntCutAs(b, m, p+len(e)))
+				}
+				st := clntCut(b, p, p+len(e))
+				mk(kind, q, rep, []clntStep{st[0], clntQuiet(), st[1], clntQuiet(), st[2]})
+				// 0x83 0x02 all over the payload
+				for i := range d {
+					d[i] = []byte{0x83, 0x02}[i%2]
+				}
+				rep = q.replyData(d)
+				b = rep.bytes
+				for _, c := range []int{5, 9, len(b) - 5, len(b) - 9} {
+					if c > 0 && c < len(b) {
+						mk(kind, q, rep, clntCutAs(b, clntClassMixes[c%4], c))
+					}
+				}
 			}
 		}
 	}
@@ -393,6 +486,7 @@ func clntGenC07(r *rng, thorough bool, f func(c *clntCase)) {
 // ---------- C08 ----------
 
 func clntGenC08(r *rng, thorough bool, f func(c *clntCase)) {
+	clntGenOversize(r, f)
 	i := 0
 	mk := func(kind int, q *clntRq, rep clntReply, sc clntScript) {
 		i++
@@ -408,7 +502,11 @@ func clntGenC08(r *rng, thorough bool, f func(c *clntCase)) {
 			}
 			if k > 3 && r.intn(3) == 0 {
 				c := 1 + r.intn(k-1)
-				return []clntStep{clntData(p[:c]), clntQuiet(), clntData(p[c:])}
+				st := clntCutAs(p, clntClassMixes[r.intn(4)], c)
+				return []clntStep{st[0], clntQuiet(), st[1]}
+			}
+			if r.intn(3) == 0 {
+				return []clntStep{clntLate(p)}
 			}
 			return []clntStep{clntData(p)}
 		}
@@ -443,6 +541,14 @@ func clntGenC08(r *rng, thorough bool, f func(c *clntCase)) {
 		// the caller cancels
 		mk(kind, q, rep, clntScript{steps: append(pre(), clntCtx())})
 		mk(kind, q, rep, clntScript{steps: append(pre(), clntQuiet(), clntQuiet(), clntCtx())})
+		// the caller's OWN deadline (far shorter than the read timeout) expires while the transport
+		// stalls: the context's error, not the client's timeout
+		mk(kind, q, rep, clntScript{steps: append(pre(), clntQuiet(), clntCtxDeadline())})
+		if k == 0 {
+			mk(kind, q, rep, clntScript{steps: []clntStep{clntCtxDeadline()}}) // expired before the call
+		} else if r.intn(2) == 0 {
+			mk(kind, q, rep, clntScript{steps: append(pre(), clntCtxDeadline())})
+		}
 	}
 	for kind := 0; kind < 3; kind++ {
 		fr := clntFrOf(kind)
@@ -487,6 +593,50 @@ func clntGenC08(r *rng, thorough bool, f func(c *clntCase)) {
 			for _, hooks := range []bool{true, false} {
 				f(&clntCase{kind: kind, conn: conn, flusher: hooks, hooks: hooks, rq: nil,
 					sc: clntScript{steps: []clntStep{clntData([]byte{1, 2, 3})}}})
+			}
+		}
+	}
+}
+
+// clntGenOversize: streams of every size 255..272 that start like the largest replies, in various
+// chunkings, for the three clients (limit 260 for the network clients, 256 for the serial one)
+func clntGenOversize(r *rng, f func(c *clntCase)) {
+	i := 0
+	for kind := 0; kind < 3; kind++ {
+		fr := clntFrOf(kind)
+		for _, fc := range []int{3, 1} {
+			q := clntMkRq(r, fc, fr, 3)
+			rep := q.reply(r)
+			e := q.req.ExpectedResponseLength()
+			for size := 255; size <= 272; size++ {
+				b := append([]byte(nil), rep.bytes...)
+				if size <= len(b) {
+					b = b[:size]
+				} else {
+					b = append(b, r.bytes(size-len(b))...)
+				}
+				var scripts [][]clntStep
+				for _, m := range [][]int{{0}, {1}, {2}} {
+					scripts = append(scripts, clntCutAs(b, m))
+				}
+				for _, c := range []int{1, 100, 250, e - 1, e, 254, 1 + r.intn(250)} {
+					if c > 0 && c < size {
+						scripts = append(scripts, clntCutAs(b, clntClassMixes[(c+size)%len(clntClassMixes)], c))
+					}
+				}
+				scripts = append(scripts, clntCutAs(b, []int{0, 1, 0}, 100, 200))
+				scripts = append(scripts, clntCutAs(b, []int{1, 0, 2}, 7, 249))
+				one := clntCut(b, 250) // the rest byte by byte
+				st := []clntStep{one[0]}
+				for _, x := range one[1].data {
+					st = append(st, clntData([]byte{x}))
+				}
+				scripts = append(scripts, st)
+				for _, sc := range scripts {
+					i++
+					f(&clntCase{kind: kind, conn: true, flusher: i%2 == 0, hooks: i%2 == 0, rq: q,
+						sc: clntScript{fl: i%8 == 0, steps: append(sc, clntTail()...)}, want: rep.want})
+				}
 			}
 		}
 	}
